@@ -391,7 +391,7 @@ def run(ctx):
                                 'equal states, and agreement with the stateless model after every history.')
     ctx.rule = ('histories on the 21 shipped environments and on dense door/key/box worlds under the key-door dynamics: hashing, calls on other environments and '
                 'in-place scrambling of copies interleaved with functional_observation / functional_step / reward / termination on ONE evolving state; '
-                'id-graph disjointness, structural snapshots, fresh-equal-state comparisons, model comparison; after-the-fact mutation probes; non-trivial = every event')
+                'id-graph disjointness, structural snapshots, fresh-equal-state comparisons, model comparison; after-the-fact mutation probes; reward / termination components asked about A, then B, then A again; worlds in which one door decides every walking distance; equality and hashing across the definition of an unrelated same-named grid-object class; non-trivial = every event')
     histories(ctx)
     aliasing_after_the_fact(ctx)
     large_view_histories(ctx)
